@@ -1,4 +1,5 @@
 """Concretisation: abstract scenario -> real data directory (blk*.dat, xor.dat, LevelDB index)."""
+import hashlib
 import os
 import shutil
 import struct
@@ -55,7 +56,13 @@ class DataDir:
         self.kvs[b'F' + b'\x07txindex'] = b'1'
 
     # -- materialise -------------------------------------------------------------------
-    def write(self, xor_key=None, name=lambda n: 'blk%05d.dat' % n):
+    def write(self, xor_key=None, name=lambda n: 'blk%05d.dat' % n, plain=False):
+        # ambient variation: unless the caller asks for plaintext, one directory in four is XOR-obfuscated with Core's 8-byte
+        # key form - no result may depend on it (C11)
+        if xor_key is None and not plain and os.environ.get('RBP_VERIF_NO_AMBIENT') is None:
+            hsh = hashlib.md5(self.path.encode()).digest()
+            if hsh[0] % 4 == 0:
+                xor_key = hsh[1:9]
         shutil.rmtree(self.path, ignore_errors=True)
         os.makedirs(self.path)
         for fno, segs in self.files.items():
